@@ -43,6 +43,20 @@ class C24(Property):
 
     def cases(self, rng, tier):
         n = 40 if tier == 'quick' else 1200
+        # family: restarted GMRES (several short Krylov cycles re-use the linear vectors), reverse
+        # and forward mode, matrix-free components, on the root or on the sub-groups
+        for _ in range(12 if tier == 'quick' else 200):
+            cyc = rng.random() < 0.6
+            sub = (not cyc) and rng.random() < 0.4
+            yield {'gen_seed': rng.randrange(10 ** 9),
+                   'opts': {'safe_indices': True, 'implicit': rng.random() < 0.6,
+                            'n_comps': (4, 7), 'cycles': 'converging' if cyc else False},
+                   'cfg': {'mode': rng.choice(['rev', 'rev', 'rev', 'fwd']),
+                           'linear': rng.choice([None, 'runonce', 'lbgs']) if sub else 'krylov',
+                           'sub_linear': 'krylov' if sub else None,
+                           'nonlinear': 'nlbgs' if cyc else None, 'jac': None,
+                           'partials': rng.choice(['matfree', 'matfree', None]),
+                           'krylov_restart': rng.choice([3, 4, 6, 8]), 'driver': False}}
         for _ in range(n):
             cyc = rng.random() < 0.25
             cfg = {'mode': rng.choice(['fwd', 'rev']),
@@ -149,8 +163,29 @@ class C24(Property):
         try:
             with warnings.catch_warnings():
                 warnings.simplefilter('ignore')
-                res['on'] = self._run(md, voi, case['cfg'], False)
-                res['off'] = self._run(md, voi, case['cfg'], True)
+                for key, no_rel in (('off', True), ('on', False)):
+                    try:
+                        res[key] = self._run(md, voi, case['cfg'], no_rel)
+                    except Exception as e:
+                        if type(e).__name__ != 'AnalysisError':
+                            raise
+                        res[key + '_analysis_error'] = str(e)[:200]
+                if 'on' not in res and 'off' in res:
+                    # ScipyKrylov reported non-convergence only with relevance enabled (scipy's gmres
+                    # returns info > 0 after an exact breakdown on the pruned, singular operator, and
+                    # restarted GMRES can stagnate on it).  The property is about values: take them
+                    # with un-restarted GMRES (exact after at most n steps on a consistent system) and
+                    # the error flag off, and compare.
+                    try:
+                        res['on'] = self._run(md, voi, dict(case['cfg'], krylov_err=False,
+                                                            krylov_restart=200), False)
+                        res['on_reported_nonconvergence'] = True
+                    except Exception as e:
+                        if type(e).__name__ != 'AnalysisError':
+                            raise
+                if 'on' not in res or 'off' not in res:
+                    res['error'] = 'AnalysisError'
+                    return res
                 if case['cfg']['driver']:
                     try:
                         res['drv_on'] = self._run_driver(md, voi, case['cfg'], False)
@@ -216,7 +251,9 @@ class C24(Property):
     def bucket(self, case, impl):
         md, voi = self._md(case)
         cfg = case['cfg']
-        b = ['solver_reported_failure' if impl.get('error') == 'AnalysisError' else 'impl_error' if 'error' in impl else 'impl_ok', 'cyclic' if md.get('cyclic') else 'acyclic']
+        b = ['solver_reported_failure' if impl.get('error') == 'AnalysisError' else
+             'krylov_reported_nonconvergence_only_with_relevance(values compared)'
+             if impl.get('on_reported_nonconvergence') else 'impl_error' if 'error' in impl else 'impl_ok', 'cyclic' if md.get('cyclic') else 'acyclic']
         for k in ('mode', 'linear', 'nonlinear', 'partials'):
             b.append('%s=%s' % (k, cfg[k]))
         if any(c['kind'] == 'implicit' and len(c['outs']) > 1 for c in md['comps']):
